@@ -6,6 +6,8 @@
 #![allow(dead_code)]
 mod proto;
 mod rng;
+mod sim;
+mod simnet;
 
 mod c01;
 mod c02;
@@ -64,6 +66,7 @@ fn main() {
     // default hook quiet so that expected panics do not flood stderr.
     std::panic::set_hook(Box::new(|_| {}));
     let text = match (prop, mode) {
+        ("SIM", _) => sim::gen(&a),
         ("C01", "gen") => c01::gen(&a),
         ("C01", "replay") => c01::replay(&a),
         ("C02", "gen") => c02::gen(&a),
